@@ -108,6 +108,15 @@ def gen_case(rng, params, index):
         model[victim] = good
         steps.append({"op": "WRITE", "path": "proj/" + victim, "content": docs.render(good)[0], "edit": "unplant"})
         steps.append(gen())
+        if rng.chance(0.35):
+            # an accepted edit whose outputs meet a failing or short write: the run may fail (exit status non-zero), but when
+            # it says 0 every binding of the document is in the outputs
+            model[victim], _op = docs.edit(rng, model[victim])
+            steps.append({"op": "WRITE", "path": "proj/" + victim, "content": docs.render(model[victim])[0], "edit": _op})
+            g = gen()
+            g["wfault"] = [rng.randint(0, 1 << 20), rng.choice(["ENOSPC", "EIO", "EDQUOT", "EFBIG", "SHORT_WRITE", "SHORT_THEN_ENOSPC"]), rng.randint(1, 4096)]
+            steps.append(g)
+            steps.append(gen())
     last = gen()
     steps.append(last)
     r = copy.deepcopy(last)
@@ -194,6 +203,29 @@ def run_case(case, env):
                     used.add(c.idx)
                     faults.append((c.idx, kind) if kind == "EINTR" else (c.idx, kind, n))
             faults.sort()
+        wgold = None
+        if step.get("wfault") and not step.get("plant"):
+            sb.park()
+            try:
+                sb.clone_in()
+                g = sb.run(step)
+                stats["runs"] += 1
+                wgold = (g.exit_status, sb.snap())
+                sb.drop_clone()
+            finally:
+                sb.unpark()
+            pick, kind, n = step["wfault"]
+            cands = [c for c in g.calls if c.name == "write" and c.is_mutation() and engine.in_scope(c, sb) and (c.length or 0) > 1]
+            if cands:
+                c = cands[pick % len(cands)]
+                if kind == "SHORT_WRITE":
+                    faults = [(c.idx, "SHORT_WRITE", max(1, min(n, c.length - 1)))]
+                elif kind == "SHORT_THEN_ENOSPC":
+                    faults = [(c.idx, "SHORT_WRITE", max(1, min(n, c.length - 1))), (c.idx + 1, "ERR", "ENOSPC")]
+                else:
+                    faults = [(c.idx, "ERR", kind)]
+            else:
+                wgold = None
         res = sb.run(step, faults=faults)
         stats["runs"] += 1
         stats["sim_steps"]["syscalls_intercepted"] += len(res.calls)
@@ -202,6 +234,28 @@ def run_case(case, env):
                 _bump(stats["faults_fired"], c.fault + ":" + c.name)
         after = sb.snap()
         plant = step.get("plant")
+        if not plant and wgold is not None:
+            # ---- accepted document, write fault on an output
+            prev_plain = None
+            fired = [c for c in res.calls if c.fault]
+            _bump(probes, "accepted_runs_under_a_write_fault")
+            vs = []
+            if res.signal is not None or res.bound:
+                vs.append(V("exit-status", "c04:abnormal-end", "write fault %s: process ended with %s" % (step["wfault"][1], res.disposition())))
+            if res.exit_status == 0 and wgold[0] == 0 and fired:
+                _bump(probes, "write_fault_survived_with_exit_0")
+                for p in sorted(relpred):
+                    if after.content(p) != wgold[1].content(p):
+                        vs.append(V("accepted-takes-effect", "c04:exit0-bindings-missing",
+                                    "exit 0 under %s on %s, but output %s is not what the accepted document translates to (its bindings are in neither output): want %s got %s"
+                                    % (step["wfault"][1], fired[0].line.split(" -> ")[0][-80:], p, engine._d(wgold[1].content(p)), engine._d(after.content(p)))))
+            elif res.exit_status not in (0, None):
+                _bump(probes, "write_fault_reported_as_failure")
+            for v in vs:
+                v["step"] = si
+            viol += vs
+            trace.append({"step": si, "argv": engine.argv_for(step, env, "@BOX@")[3:], "write_fault": step["wfault"][1], "exit": res.disposition()})
+            continue
         if not plant:
             vs = engine.eval_clean_run(sb, step, before, after, res, pred)
             if res.exit_status == 0 and any(p in before.files for p in relpred):
